@@ -325,30 +325,39 @@ def run_t4(repo: Repo, res: Result, inl: Inliner | None) -> None:
                 where(q.fi, q.node),
                 kind="flow",
             )
-    # (c) evaluation-local matcher state: nothing derived from this evaluable may survive into the state a later evaluation starts from
-    flagged: set = set()
-    mcls = None
-    for sc in legal_scenarios():
-        run = run_scenario(repo, sc)
-        m = run.matcher
-        if m is None:
-            continue
-        mcls = m.cls
-        for fld in sorted(set(m.entry_reads) & set(m.late_writes)):
-            for value, fi, node in m.late_writes[fld]:
-                derived = "evaluable" in roots_of(value) or (isinstance(value, Inst) and any("evaluable" in roots_of(x) for x in value.fields.values()))
-                if derived and (fld, id(node)) not in flagged:
-                    flagged.add((fld, id(node)))
-                    res.add(
-                        "C01.T4",
-                        f"{fi.relpath}::{fi.qualname}::matcher state `{fld}`" if fi else f"matcher state `{fld}`",
-                        False,
-                        f"`{fld}` is read at the start of an evaluation and overwritten with a value derived from the evaluable being checked: a second evaluation (another evaluable) starts from the first one's converted modules",
-                        where(fi, node) if fi and node is not None else "",
-                        kind="flow",
-                    )
-    if mcls is not None and not flagged:
-        res.add("C01.T4", f"{mcls.module.relpath}::{mcls.name}::evaluation-local state", True, "no matcher field is both read on entry of an evaluation and overwritten with evaluable-derived data", kind="flow")
+    # (c) every evaluation asks its questions with modules converted for *its* evaluable: the same rule object is evaluated a second
+    # time against another evaluable; where the second evaluation is stale, the matcher state that carries the first evaluation's
+    # data over is named (a field read on entry of an evaluation and overwritten with evaluable-derived data)
+    from .tables import run_twice
+
+    for imp in (True, False):
+        sc = Scenario("should_only", False, imp)
+        first, second = run_twice(repo, sc)
+        stale = [q for q in second if "evaluable" in set().union(roots_of(q.recv), *[roots_of(a) for a in bound_args(repo, q)])]
+        carriers = []
+        for inst in first.interp.instances:
+            if inst is first.rule or inst is first.config0:
+                continue
+            for fld in sorted(set(inst.entry_reads) & set(inst.late_writes)):
+                for value, fi, node in inst.late_writes[fld]:
+                    if "evaluable" in roots_of(value) or (isinstance(value, Inst) and any("evaluable" in roots_of(x) for x in value.fields.values())):
+                        carriers.append((inst, fld, fi, node))
+        site = first.queries[0] if first.queries else None
+        prefix = f"{site.fi.relpath}::{site.fi.qualname}" if site is not None else "rule evaluation"
+        tag = "import" if imp else "be imported by"
+        if not stale:
+            res.add("C01.T4", f"{prefix}::questions of a second evaluation [{tag}]", True, "a second evaluation of the same rule object asks its questions with modules converted against its own evaluable", where(site.fi, site.node) if site else "", kind="flow")
+        elif carriers:
+            inst, fld, fi, node = carriers[0]
+            res.add(
+                "C01.T4", f"{fi.relpath}::{fi.qualname}::state `{fld}` of {inst.cls.name} [{tag}]" if fi else f"state `{fld}` [{tag}]", False,
+                f"`{inst.cls.name}.{fld}` is read at the start of an evaluation and overwritten with a value derived from the evaluable being checked; the object survives the evaluation, so a second evaluation "
+                f"(another evaluable) asks `{stale[0].name}` with the first one's converted modules",
+                where(fi, node) if fi and node is not None else "", kind="flow",
+            )
+        else:
+            q = stale[0]
+            res.add("C01.T4", f"{q.fi.relpath}::{q.fi.qualname}::questions of a second evaluation [{tag}]", False, f"a second evaluation of the same rule object asks `{q.name}` with modules converted against the previous evaluable", where(q.fi, q.node), kind="flow")
     # (d) orientation of the 'other' query chosen per direction, and the per-subject judgement inside it
     for imp in (True, False):
         used = sorted({q.name for v, e in LEGAL_POINTS for q in run_scenario(repo, Scenario(v, e, imp)).queries if q.name in OTHER_QUERIES})
